@@ -481,19 +481,19 @@ impl<'r, D: Doc> Node<'r, D> {
 
   #[cfg(not(target_arch = "wasm32"))]
   pub fn prev_all(&self) -> impl Iterator<Item = Node<'r, D>> + '_ {
-    // if root is none, use self as fallback to return a type-stable Iterator
-    let node = self.parent().unwrap_or_else(|| self.clone());
-    // the root node has no sibling: the cursor below would descend into its children
-    let is_root = self.inner.parent().is_none();
-    let mut cursor = node.inner.walk();
-    cursor.goto_first_child_for_byte(self.inner.start_byte());
-    std::iter::from_fn(move || {
-      if !is_root && cursor.goto_previous_sibling() {
-        Some(self.root.adopt(cursor.node()))
-      } else {
-        None
+    // A tree-sitter cursor cannot walk backwards reliably: it loses aliased kinds, steps into
+    // same-range descendants and stops early next to ERROR nodes. Walk the parent's children
+    // forwards up to this node and hand them out in reverse.
+    let mut earlier = vec![];
+    if let Some(parent) = self.parent() {
+      for child in parent.children() {
+        if child.node_id() == self.node_id() {
+          break;
+        }
+        earlier.push(child);
       }
-    })
+    }
+    earlier.into_iter().rev()
   }
 
   // wasm32 has wrong goto_first_child_for_byte
